@@ -72,6 +72,52 @@ func genStopProto() {
 	}
 	fmt.Fprintf(&sb, "/-- the final result of `OnlineSoon` (after the management-flag test). -/\ndef onlineSoonResult : String := %q\n\n", exprString(fset, ret.Results[0]))
 
+	// ---- runServiceWorker: the restart loop starts with the stopping test
+	fsetW, fW := parseFile("modules/worker.go")
+	rsw := findFunc(fW, "runServiceWorker", "Module")
+	if rsw == nil {
+		die("stopproto: runServiceWorker not found")
+	}
+	var loop *ast.ForStmt
+	for _, st := range rsw.Body.List {
+		if fs, ok := st.(*ast.ForStmt); ok && fs.Cond == nil && fs.Init == nil {
+			loop = fs
+		}
+	}
+	if loop == nil || len(loop.Body.List) == 0 {
+		die("stopproto: runServiceWorker: restart loop not found")
+	}
+	head := "-"
+	for _, st := range loop.Body.List {
+		// skip verif hook lines
+		if es, ok := st.(*ast.ExprStmt); ok {
+			if ce, ok := es.X.(*ast.CallExpr); ok && strings.HasPrefix(exprString(fsetW, ce.Fun), "verif") {
+				continue
+			}
+		}
+		if is, ok := st.(*ast.IfStmt); ok && is.Init == nil && is.Else == nil && len(is.Body.List) >= 1 {
+			if _, ok := is.Body.List[len(is.Body.List)-1].(*ast.ReturnStmt); ok {
+				onlyHooks := true
+				for _, b := range is.Body.List[:len(is.Body.List)-1] {
+					es, ok := b.(*ast.ExprStmt)
+					if !ok {
+						onlyHooks = false
+						break
+					}
+					ce, ok := es.X.(*ast.CallExpr)
+					if !ok || !strings.HasPrefix(exprString(fsetW, ce.Fun), "verif") {
+						onlyHooks = false
+					}
+				}
+				if onlyHooks {
+					head = "if " + exprString(fsetW, is.Cond) + " { return }"
+				}
+			}
+		}
+		break
+	}
+	fmt.Fprintf(&sb, "/-- first statement of the restart loop of `runServiceWorker` (modules/worker.go); \"-\" if it is not a guarded return. -/\ndef serviceWorkerLoopHead : String := %q\n\n", head)
+
 	// ---- stopAllTasks / checkIfStopComplete operation order
 	fset2, f2 := parseFile("modules/modules.go")
 	seqOf := func(fn string, known map[string]string, ignore []string) []string {
